@@ -3,6 +3,8 @@
 #include <osmium/index/map/sparse_mem_array.hpp>
 #include <osmium/index/map/flex_mem.hpp>
 #include <osmium/index/map/sparse_mem_map.hpp>
+#include <osmium/index/map/dense_mmap_array.hpp>
+#include <osmium/index/map/sparse_mmap_array.hpp>
 #include <osmium/handler/node_locations_for_ways.hpp>
 #include <osmium/builder/osm_object_builder.hpp>
 #include <osmium/memory/buffer.hpp>
@@ -28,6 +30,8 @@ static std::unique_ptr<MapT> make(int kind) {
         case 2: case 3: return std::unique_ptr<MapT>{new index::map::FlexMem<Id, Location>};
         case 4: return std::unique_ptr<MapT>{new index::map::FlexMem<Id, Location>{true}};
         case 5: return std::unique_ptr<MapT>{new index::map::SparseMemMap<Id, Location>};
+        case 6: return std::unique_ptr<MapT>{new index::map::DenseMmapArray<Id, Location>};
+        case 7: return std::unique_ptr<MapT>{new index::map::SparseMmapArray<Id, Location>};
         default: return nullptr;
     }
 }
